@@ -146,6 +146,14 @@ def generate():
         for label, mk, shape in field_hosts(["#[educe(Default)]"], kinds=("struct",)):
             yield ("expression spellings", [mk("#[educe(%s)]" % a, 1) for a in forms])
         yield ("expression spellings", [item("union", "U", ["#[educe(Default)]"], [("", "named", [], with_attr(plain_fields("named", 2, "u8"), 1, "#[educe(%s)]" % a))]) for a in forms])
+    # a negative number is a literal for syn when it ends a `name = value` list and a negation everywhere else
+    # (known finding: only the literal gets the automatic Into conversion)
+    for ty, e in [("Wrapper", "-5"), ("Wrapper", "-1.5"), ("i64", "-5"), ("f64", "-1.5")]:
+        forms = ["Default = %s" % e, "Default(expression = %s)" % e, "Default(expr = %s)" % e, "Default(expression(%s))" % e, "Default(expr(%s))" % e]
+        yield ("negative number as expression" if ty == "Wrapper" else "expression spellings",
+               [item("struct", "S", ["#[educe(Default)]"], [("", "named", [], with_attr(plain_fields("named", 2, ty), 1, "#[educe(%s)]" % a))]) for a in forms])
+    yield ("negative number as expression", [item("struct", "S", ["#[educe(Default(%s))]" % a], [("", "tuple", [], plain_fields("tuple", 2))])
+                                              for a in ["expression = -3, new", "new, expression = -3", "new, expression(-3)"]])
     tforms = ["expression = S(1, 2)", "expr = S(1, 2)", "expression(S(1, 2))", "expr(S(1, 2))"]
     yield ("expression spellings", [item("struct", "S", ["#[educe(Default(%s))]" % a], [("", "tuple", [], plain_fields("tuple", 2))]) for a in tforms])
     yield ("new spellings", [item("struct", "S", ["#[educe(Default(%s))]" % a], [("", "tuple", [], plain_fields("tuple", 2))]) for a in ["new", "new = true", "new(true)"]])
